@@ -416,6 +416,9 @@ impl Filter {
                     if let b"filter" = e.local_name().as_ref() {
                         break;
                     }
+                    // an element without text (e.g. <payloadtext></payloadtext>) must not take the
+                    // white space that follows it in a formatted file as its value
+                    last_entry = None;
                 }
                 Ok(quick_xml::events::Event::Eof) => {
                     return Err(quick_xml::Error::IllFormed(
